@@ -139,6 +139,7 @@ func loadProgram(repo, pkgKey, prop string) (*Program, error) {
 	if tp := prog.ImportedPackage("time"); tp != nil {
 		pr.timeType = tp.Type("Time").Type()
 	}
+	pr.funcByName("") // build the index before workers start
 	return pr, nil
 }
 
